@@ -91,6 +91,8 @@ def run():
         where = {"clause": clause, "kind": ctx[0], "exc": ctx[1], "inject": ctx[2], "after": last}
         what = f"{ev.get('what', '')} points={pts} lens0={ev.get('lens0')} last_lens={ev.get('events', [{}])[-1].get('lens') if ev.get('events') else None} exc={ctx[1]} inject={ctx[2]}: {clause}"
         rep.reject(clause, where, what, ev, prop=prop)
+    from ..repo_traces import validate_recorded
+    validate_recorded(rep, "C08", "field")
     ev = json.loads(open(files[0]).readline())
     rep.sample({"plan": ev["plan"], "lens0": ev["lens0"], "events": ev["events"][-3:], "exc": ev["exc"], "unchanged": ev["unchanged"]})
     rep.assume("the only in-place mutation of getBH_level2 is path tiling; everything else is caught by the deep digest (private attributes, "
